@@ -89,6 +89,30 @@ def run(ctx):
     ctx.floor('C18.7', 'file mutations inside ripd::local_authority', n7in, 6)
     ctx.ob('C18.7', 'workspace', 'authority-files-owned', True, '%d mutation site(s) of the authority files, all inside ripd::local_authority' % n7in)
 
+    # ---------------------------------------------------------------- C18.8
+    ctx.rule('C18.8', 'a process that answers the signal-0 probe is never called dead: in pid_liveness every construction of PidLiveness::Dead lies behind the failure edge of the probe (kill(pid, 0) != 0) — on the success edge only Alive (or Unknown) is answered, whatever else is known about the process (its executable, its start time). "Dead" is what licenses the stale cleanup; a live owner judged dead by a heuristic loses its lock to a second authority.')
+    pl8 = P.fn(LA + 'pid_liveness')
+    ctx.touch(pl8)
+    from ..inline import inline_calls as _inl8
+    pl8 = _inl8(P, pl8, lambda body, callee: callee.startswith(LA) and callee != LA + 'pid_liveness', depth=2, note=ctx.note)
+    probes = [s_ for s_ in pl8.sites() if re.search(r'::(kill|killpg)$', s_.callee or '') and s_.callee not in P.fns]
+    ctx.floor('C18.8', 'signal-0 probes in pid_liveness', len(probes), 1)
+    deads = [(bi, st) for (bi, si, st) in pl8.aggregates(r'PidLiveness$') if st['rv'].get('variant') == 'Dead']
+    ctx.floor('C18.8', 'constructions of PidLiveness::Dead', len(deads), 1)
+    for pr in probes:
+        succ_edges = []
+        for (bi, on, ts, els) in switches(pl8):
+            o = pl8.origin(on)
+            if o[0] == 'rv' and o[1]['k'] == 'bin' and o[1]['op'] in ('Eq', 'Ne') and any(pr.dest['l'] in reads_locals(pl8, a_) for a_ in o[1]['a'] if op_place(a_)) and any((op_const(a_) or {}).get('v') == '0' for a_ in o[1]['a']):
+                succ_edges.append((bi, els if o[1]['op'] == 'Eq' else ts.get('0')))
+        if not succ_edges:
+            raise CheckError('C18.8: the result of the signal-0 probe is not compared with 0 (unrecognised idiom)')
+        for (bi, st) in deads:
+            on_success = any(t_ is not None and (bi == t_ or bi in pl8.reach([t_])) and not pl8.can_reach(bi, sb) for (sb, t_) in succ_edges)
+            ctx.ob('C18.8', pl8, 'dead-only-when-probe-fails', not on_success,
+                   'PidLiveness::Dead is built only behind the failure edge of kill(pid, 0)' if not on_success else
+                   'PidLiveness::Dead is reachable on the SUCCESS edge of kill(pid, 0) (line %s): a process that is alive is reported dead, the stale cleanup takes its lock and a second authority starts' % st.get('ln'), line=st.get('ln'))
+
     # ---------------------------------------------------------------- C18.2
     pl = P.adts.get(LA + 'PidLiveness')
     if pl is None:
